@@ -815,7 +815,10 @@ func Validate(dir Dir) error {
 	if err != nil {
 		return err
 	}
-	if ac.Sum() != ex.Sum() {
+	// The sum is computed over the concatenation of names and hashes, which is
+	// kept by some edits of the entries (e.g. moving a character from a hash to
+	// its name). Hence, the entries are compared as well.
+	if ac.Sum() != ex.Sum() || !slices.Equal(ac, ex) {
 		err := &ChecksumError{Total: len(ac)}
 		// Determine the reason for the mismatch. Iterate over the file sum,
 		// based on it determine if a file was removed, added or edited.
